@@ -14,7 +14,7 @@ import datetime
 import os
 import random
 
-from vh.core import MachineryError, guarded, Raised
+from vh.core import MachineryError, guarded, Raised, spell_flag
 
 ATTRS = ['origin_time', 'latitude', 'longitude', 'depth', 'magnitude']
 # (below, threshold, above) triples per attribute
@@ -102,15 +102,16 @@ def run_history(real, src, hist, numpy, check_fields=True):
     objs = [cat]
     cur = 0
     problems = []
-    for c in hist:
+    for hi, c in enumerate(hist):
         oi = c.get('o', cur + 1) - 1          # the object the call is made on (any existing object)
         o = objs[oi]
+        flag = spell_flag(c['inplace'], hi + len(src))      # True / False, numpy.bool_, 1 / 0
         if c['k'] == 'spatial':
-            r = guarded(o.filter_spatial, real.region, in_place=c['inplace'])
+            r = guarded(o.filter_spatial, real.region, in_place=flag)
         elif c['k'] == 'one':
-            r = guarded(o.filter, real.stmt(c['sts'][0]), in_place=c['inplace'])
+            r = guarded(o.filter, real.stmt(c['sts'][0]), in_place=flag)
         else:
-            r = guarded(o.filter, [real.stmt(s) for s in c['sts']], in_place=c['inplace'])
+            r = guarded(o.filter, [real.stmt(s) for s in c['sts']], in_place=flag)
         if isinstance(r, Raised):
             problems.append('raised: %r' % r)
             break
@@ -294,12 +295,13 @@ def run(chk, replay=None):
                 idx = [1] + (idx[1:] if k != 'one' else [])
             strs = [statement(st_attrs[j - 1], st_ops[j - 1], thr[j - 1], use_dt[j - 1], style=t + j + len(calls)) for j in idx]
             o = objs[oi]
+            inplace_arg = spell_flag(inplace, t + len(calls))
             if k == 'spatial':
-                r = guarded(o.filter_spatial, region, in_place=inplace, update_stats=(len(calls) % 2 == 1))
+                r = guarded(o.filter_spatial, region, in_place=inplace_arg, update_stats=spell_flag(len(calls) % 2 == 1, t))
             elif k == 'one':
-                r = guarded(o.filter, strs[0], in_place=inplace)
+                r = guarded(o.filter, strs[0], in_place=inplace_arg)
             elif k == 'list':
-                r = guarded(o.filter, strs if rng.random() < 0.5 else tuple(strs), in_place=inplace)
+                r = guarded(o.filter, strs if rng.random() < 0.5 else tuple(strs), in_place=inplace_arg)
             elif k == 'load':
                 # the loader's own filtering: the object is written out and read back with apply_filters=True
                 import csep as _csep
@@ -308,7 +310,7 @@ def run(chk, replay=None):
                 r = w_ if isinstance(w_, Raised) else guarded(_csep.load_catalog, lp, apply_filters=True, filters=list(strs))
             else:
                 o.filters = strs
-                r = guarded(o.filter, in_place=inplace)
+                r = guarded(o.filter, in_place=inplace_arg)
             chk.count()
             if isinstance(r, Raised):
                 failed = repr(r)
